@@ -164,7 +164,7 @@ func clip(s string) string {
 func (l *leakCtx) checkOp(res OpResult, what string) bool {
 	c := l.c
 	c.Eval(1)
-	c.T(res.brief())
+	c.T(res.tkey())
 	// secrets of this operation: the returned password and every candidate drawn
 	if res.Pw != nil {
 		l.addSecret(res.Pw.S)
